@@ -960,7 +960,28 @@ def main():
     ap.add_argument("--out", default=str(OUT))
     ap.add_argument("--jobs", type=int, default=min(16, os.cpu_count() or 1))
     ap.add_argument("--timing", action="store_true")
+    ap.add_argument("--force", action="store_true", help="recompile even if the sources are unchanged since the last successful run")
     opts = ap.parse_args()
+
+    # The summary is a function of the package source, of this script and of the Numba / NumPy versions (each run compiles in fresh
+    # interpreters without a disk cache and gives byte-identical output for identical input): when none of them changed since the last
+    # successful run that wrote the current output file, the ~30 s of compilation are skipped.
+    import numba as _nb
+    import numpy as _np
+    h = hashlib.sha256()
+    for f in sorted((REPO / "hdc").rglob("*.py")) + [Path(__file__).resolve()]:
+        h.update(str(f.relative_to(f.anchor)).encode() + b"\0" + f.read_bytes())
+    h.update(f"{_nb.__version__} {_np.__version__}".encode())
+    stamp_file = Path(opts.out).resolve().parent.parent.parent / ".lake" / "types_stamp.json"
+    outp = Path(opts.out)
+    stamp = dict(inputs=h.hexdigest(), output=hashlib.sha256(outp.read_bytes()).hexdigest() if outp.exists() else None)
+    if not opts.force and opts.json is None and stamp_file.exists() and outp.exists():
+        try:
+            if json.loads(stamp_file.read_text()) == stamp:
+                print("ok Hdc.Gen.Types: sources unchanged since the last run, summary up to date")
+                return 0
+        except Exception:  # noqa: BLE001
+            pass
 
     disc = discover()
     # what kind of object does each lazycompile wrapper produce?  read off the decorator without compiling:
@@ -1029,6 +1050,12 @@ def main():
     if opts.json:
         dump_json(data, opts.json)
     emit_lean(data, Path(opts.out))
+    try:
+        stamp["output"] = hashlib.sha256(Path(opts.out).read_bytes()).hexdigest()
+        stamp_file.parent.mkdir(parents=True, exist_ok=True)
+        stamp_file.write_text(json.dumps(stamp))
+    except OSError:
+        pass
     print(f"ok {MODULE}: {len(kernels)} kernels, {len(fns)} typed functions, {time.time() - T0:.1f}s")
 
 
